@@ -45,4 +45,32 @@ def eqvF : List (String × Ty) → List (String × Ty) → Bool
   | (k, a) :: as, bs => (match lookupF k bs with | some b => Ty.eqv a b | none => false) && eqvF as bs
 end
 
+mutual
+/-- strict structural equality (stands for object identity `is` of hash-consed typing objects, typing.py:436) -/
+def Ty.beq' : Ty → Ty → Bool
+  | .any, .any => true
+  | .cls a, .cls b => a == b
+  | .typeOf a, .typeOf b => a == b
+  | .callable, .callable => true
+  | .list a, .list b => Ty.beq' a b
+  | .set a, .set b => Ty.beq' a b
+  | .tupleOf a, .tupleOf b => Ty.beq' a b
+  | .iterator a, .iterator b => Ty.beq' a b
+  | .dict a b, .dict c d => Ty.beq' a c && Ty.beq' b d
+  | .ddict a b, .ddict c d => Ty.beq' a c && Ty.beq' b d
+  | .generator a b c, .generator a' b' c' => Ty.beq' a a' && Ty.beq' b b' && Ty.beq' c c'
+  | .tuple as, .tuple bs => beqL as bs
+  | .union as, .union bs => beqL as bs
+  | .td r o, .td r' o' => beqF r r' && beqF o o'
+  | _, _ => false
+def beqL : List Ty → List Ty → Bool
+  | [], [] => true
+  | a :: as, b :: bs => Ty.beq' a b && beqL as bs
+  | _, _ => false
+def beqF : List (String × Ty) → List (String × Ty) → Bool
+  | [], [] => true
+  | (k, a) :: as, (k', b) :: bs => k == k' && Ty.beq' a b && beqF as bs
+  | _, _ => false
+end
+
 end MT
